@@ -56,10 +56,10 @@ Proof. exact DiskProofs.root_at_agree. Qed.
 Print Assumptions c03_root_at_local.
 
 (* ---------------------------------------------------------------------------------------------- *)
-(* REGENERATED FROM THE SOURCE ON EVERY RUN (tools/gen -> Generated.g_code; Decisions.v): the decisions the model
+(* REGENERATED FROM THE SOURCE ON EVERY RUN (tools/gen -> Generated.g_code; DecBase.v, Dec*.v): the decisions the model
    takes at these points are the evaluations of the conditions the Go source has there, for all values of their
    variables. *)
-From GK Require Import GExpr Generated Decisions.
+From GK Require Import GExpr Generated DecBase DecRoot DecFlush.
 From Coq Require Import String.
 
 (* the recorded offset of a root record and the length it implies (Codec.root_at) *)
@@ -69,19 +69,19 @@ Theorem c03_root_offset_check_is_source :
       let rho := upd (upd (upd (upd (upd env0 "offset" offset) "atomic.LoadInt64(&s.size)" size) "rootsLen" roots_len)
                           "length" len) "uint32((atomic.LoadInt64(&s.size)-offset))" len32 in
       gtrue rho c = Some (Z.geb offset 0 && Z.ltb offset (size - roots_len) && Z.eqb len len32).
-Proof. exact Decisions.root_offset_decision. Qed.
+Proof. exact DecRoot.root_offset_decision. Qed.
 Print Assumptions c03_root_offset_check_is_source.
 
 (* the backward scan: gives up at size <= rootsLen, tests MagicEnd at offsets 12 and 18 of the trailer, else moves down by one byte (Disk.scan) *)
 Theorem c03_scan_stop_is_source :
   exists c, hd_error (conds 400 scan_loop) = Some c /\
     forall size : Z, gtrue (upd (upd env0 "atomic.LoadInt64(&s.size)" size) "rootsLen" roots_len) c = Some (Z.leb size roots_len).
-Proof. exact Decisions.scan_stop_decision. Qed.
+Proof. exact DecRoot.scan_stop_decision. Qed.
 Print Assumptions c03_scan_stop_is_source.
 
 Theorem c03_scan_step_is_source :
   last scan_loop (SOther "") = SExpr (GCall "atomic.AddInt64" [GUn "&" (GVar "s.size"); GInt (-1)]).
-Proof. exact Decisions.scan_step_is_one. Qed.
+Proof. exact DecRoot.scan_step_is_one. Qed.
 Print Assumptions c03_scan_step_is_source.
 
 Theorem c03_scan_magic_offsets_is_source :
@@ -90,7 +90,7 @@ Theorem c03_scan_magic_offsets_is_source :
                   (GCall "bytes.Equal" [GVar "MagicEnd"; GCall "[:]" [GVar "rootsEnd"; GBin "+" (GInt 12) (GCall "len" [GVar "MagicEnd"]); GNil]]) /\
     geval (upd env0 "len(MagicEnd)" (Z.of_nat (List.length g_magic_end))) (GBin "+" (GInt 12) (GCall "len" [GVar "MagicEnd"])) = Some 18%Z /\
     roots_end_len = 24%Z.
-Proof. exact Decisions.scan_magic_offsets. Qed.
+Proof. exact DecRoot.scan_magic_offsets. Qed.
 Print Assumptions c03_scan_magic_offsets_is_source.
 
 (* the root record is the single commit point: written last, for the pinned versions, size moved after the write *)
@@ -100,11 +100,11 @@ Theorem c03_flush_always_writes_roots_is_source :
   hd (SOther "") (body "Store.writeRoots") = SAssign [GVar "sJSON"; GVar "err"] ":=" [GCall "json.Marshal" [GVar "rnls"]] /\
   before "c.rootAddRef" "coll[name].write" (call_list "Store.Flush") = true /\
   before "coll[name].write" "s.writeRoots" (call_list "Store.Flush") = true.
-Proof. exact Decisions.flush_always_writes_roots. Qed.
+Proof. exact DecFlush.flush_always_writes_roots. Qed.
 Print Assumptions c03_flush_always_writes_roots_is_source.
 
 Theorem c03_write_roots_order_is_source :
   Forall (fun c => c = GBin "!=" (GVar "err") GNil) (conds 400 (body "Store.writeRoots")) /\
   before "s.file.WriteAt" "atomic.StoreInt64" (call_list "Store.writeRoots") = true.
-Proof. exact Decisions.write_roots_order. Qed.
+Proof. exact DecFlush.write_roots_order. Qed.
 Print Assumptions c03_write_roots_order_is_source.
